@@ -133,6 +133,8 @@ type Exec struct {
 	specPos       token.Pos
 	ghostDepth    int
 	quantDepth    int
+	specSymLoop   bool // a probed spec-function inlining met a loop it could not unroll
+	specProbe     bool
 
 	guardMarks   []int
 	useStrCat    bool
@@ -2121,6 +2123,10 @@ func (x *Exec) runLoop(st *State, lp *loopParts) *State {
 			}
 			if !c.IsTrue() {
 				if maxUnroll == 0 {
+					if x.specProbe && x.eng.specFns[fr.qual] {
+						x.specSymLoop = true
+						return st
+					}
 					// symbolic condition and no annotation: fall back to havoc abstraction
 					if iter == 0 {
 						return x.runLoopHavoc(st, lp, nil, ord)
